@@ -10,8 +10,15 @@
    (real-time order); (d) an internal hash upgrade never undoes anything.
    Data-race freedom of the Go code itself is observed with the race detector
    by the check, not proved. *)
-From Whawty Require Import Bytes Record Store StoreSpec Store_proofs StoreInv_proofs Agent Agent_proofs AgentInst.
+From Whawty Require Import Bytes Record Store StoreSpec Store_proofs StoreInv_proofs Agent Agent_proofs AgentInst Extracted.
 Open Scope N_scope.
+
+(* the model delivers every result to the client that made the request (LRet follows the log); in the
+   code this rests on each request method waiting on a fresh channel of its own, which tools/facts
+   extracts on every run *)
+Theorem C11_extracted_client_structure :
+  Extracted.clients_rendezvous_plain = true /\ Extracted.api_request_methods = 9.
+Proof. split; reflexivity. Qed.
 
 Theorem C11_log_is_sequential : forall kdf policy_ok orc ac c d s tr,
   reach kdf policy_ok orc ac c d s tr ->
